@@ -57,6 +57,13 @@ Fixpoint kset {A} (k : Z) (v : A) (l : list (Z * A)) : list (Z * A) :=
 Record vstore := { vs_pools : list (Z * list pool); vs_traces : list (Z * gtrace); vs_trace_count : Z;
                    vs_vtypes : list (Z * (Z * Z * Z)) }.        (* name -> (lock-up ns, vesting ns, free); names are ranked by their string *)
 
+(* a genesis vesting type as it is stored: the periods converted to nanoseconds (DurationFromUnits) *)
+Definition gvtype_entry (t : gvtype) : option (Z * (Z * Z * Z)) :=
+  match units_duration (gv_lock_unit t) (gv_lock t), units_duration (gv_vest_unit t) (gv_vest t) with
+  | Some a, Some b => Some (gv_name t, (a, b, gv_free t)) | _, _ => None end.
+Definition vtypes_store (es : list (option (Z * (Z * Z * Z)))) : list (Z * (Z * Z * Z)) :=
+  fold_left (fun s x => match x with Some e => kset (fst e) (snd e) s | None => s end) es [].
+
 Definition genesis_locked (g : vgenesis) : Z :=
   zsum (map (fun o => zsum (map pool_currently_locked (go_pools o))) (vg_owners g)).
 
@@ -68,18 +75,30 @@ Definition vgenesis_init (g : vgenesis) (module_balance : Z) : option vstore :=
   else if negb (genesis_locked g =? module_balance) then None
   else if existsb (fun t => gv_name t =? 0) (vg_vtypes g) then None
   else
-    let vts := map (fun t => match units_duration (gv_lock_unit t) (gv_lock t), units_duration (gv_vest_unit t) (gv_vest t) with
-                             | Some a, Some b => Some (gv_name t, (a, b, gv_free t)) | _, _ => None end) (vg_vtypes g) in
+    let vts := map gvtype_entry (vg_vtypes g) in
     if existsb (fun x => match x with None => true | Some _ => false end) vts then None
     else Some {| vs_pools := fold_left (fun s o => kset (go_owner o) (go_pools o) s) (vg_owners g) [];
                  vs_traces := fold_left (fun s t => kset (gt_addr t) t s) (vg_traces g) [];
                  vs_trace_count := vg_trace_count g;
-                 vs_vtypes := fold_left (fun s x => match x with Some e => kset (fst e) (snd e) s | None => s end) vts [] |}.
+                 vs_vtypes := vtypes_store vts |}.
 
 (* ExportGenesis: pools and traces in store order *)
 Definition vstore_export_owners (s : vstore) : list gowner :=
   map (fun e => {| go_owner := fst e; go_addr_ok := true; go_pools := snd e |}) (vs_pools s).
 Definition vstore_export_traces (s : vstore) : list gtrace := map snd (vs_traces s).
+
+(* ExportGenesis, vesting types: the periods in the largest unit that divides them (UnitsFromDuration: 0 day, 1 hour, 2 minute,
+   3 second), in store order *)
+Definition g_units_from_duration (d : Z) : Z * Z :=
+  if Z.rem d (24 * 3600 * G_SEC) =? 0 then (0, Z.quot d (24 * 3600 * G_SEC))
+  else if Z.rem d (3600 * G_SEC) =? 0 then (1, Z.quot d (3600 * G_SEC))
+  else if Z.rem d (60 * G_SEC) =? 0 then (2, Z.quot d (60 * G_SEC))
+  else (3, Z.quot d G_SEC).
+Definition export_vtype (e : Z * (Z * Z * Z)) : gvtype :=
+  match snd e with (a, b, f) =>
+    {| gv_name := fst e; gv_lock_unit := fst (g_units_from_duration a); gv_lock := snd (g_units_from_duration a);
+       gv_vest_unit := fst (g_units_from_duration b); gv_vest := snd (g_units_from_duration b); gv_free := f |} end.
+Definition vstore_export_vtypes (s : vstore) : list gvtype := map export_vtype (vs_vtypes s).
 
 (* ------------------------------------------------------------------ comparison with the implementation *)
 Definition gpool_code (p : pool) : list Z :=
@@ -88,7 +107,9 @@ Definition vstore_code (s : vstore) : list Z :=
   Z.of_nat (length (vs_pools s)) :: flat_map (fun e => fst e :: Z.of_nat (length (snd e)) :: flat_map gpool_code (snd e)) (vs_pools s)
   ++ Z.of_nat (length (vs_traces s)) :: flat_map (fun e => [gt_id (snd e); fst e; b2z (t_genesis (gt_flags (snd e)));
                                                             b2z (t_from_pool (gt_flags (snd e))); b2z (t_from_acct (gt_flags (snd e)))]) (vs_traces s)
-  ++ vs_trace_count s :: Z.of_nat (length (vs_vtypes s)) :: flat_map (fun e => [fst e; fst (fst (snd e)); snd (fst (snd e)); snd (snd e)]) (vs_vtypes s).
+  ++ vs_trace_count s :: Z.of_nat (length (vs_vtypes s)) :: flat_map (fun e => [fst e; fst (fst (snd e)); snd (fst (snd e)); snd (snd e)]) (vs_vtypes s)
+  (* ... and the vesting types as ExportGenesis lists them *)
+  ++ flat_map (fun t => [gv_name t; gv_lock_unit t; gv_lock t; gv_vest_unit t; gv_vest t; gv_free t]) (vstore_export_vtypes s).
 
 (* expected: [validation decision] ++ ([0] when InitGenesis panicked | 1 :: code of the store read back through the keeper) *)
 Record vgcase := { vgc_id : Z; vgc_genesis : vgenesis; vgc_module_balance : Z; vgc_expected : list Z }.
